@@ -419,7 +419,10 @@ class Sim(object):
                     # true quiescence: nothing can run and nothing is
                     # scheduled - the most recently started harness wait
                     # gives up (older waits usually wait for that thread)
-                    self._soft_timeout(max(waiters,
+                    # (a wait without a step budget - the coordinator's
+                    # wait for the user threads - is the last to give up)
+                    finite = [t for t in waiters if t.step_budget < 10**15]
+                    self._soft_timeout(max(finite or waiters,
                                            key=lambda t: t.blocked_at))
                     continue
                 self.abort('deadlock', [(t.name, t.reason)
